@@ -12,7 +12,15 @@
  *   family C: responses and meta messages as input (no call, no reply);
  *   family D: sessions -- every ordered pair of a reduced frame alphabet on
  *             one instance; the second exchange must equal the exchange on a
- *             fresh instance and the instance image must not change.
+ *             fresh instance (memory accesses and reply octets).
+ *   family E: reads that cannot fit under any reading (block sizes just above
+ *             the block, and sizes whose octet count wraps in 32 bits): a
+ *             transmit-overflow response and no memory access.
+ * Reads whose data fits the block behind the request's own header but not
+ * together with a full 16-octet response header ("the band") may be served or
+ * answered with a transmit-overflow response without access: statement C09
+ * prescribes the latter for "a read whose answer cannot fit" and the answer is
+ * a message with a header of its own.
  */
 #include "mc.h"
 #include "regp_ref.h"
@@ -114,6 +122,22 @@ carries_bufsize(unsigned code)
     return code == 4 || code == 5;
 }
 
+/* octets of the request's own header in the receive block */
+static size_t
+req_hdr(const struct req *q)
+{
+    return q->tcp ? 12 : (q->write && q->bsize ? 16 : 14);
+}
+
+/* value admitted as "the buffer size" in overflow responses: the block, the
+ * block minus the frame descriptor, or that minus the request's header */
+static bool
+bufsize_ok(const struct req *q, uint32_t val)
+{
+    const size_t cap = BLOCKSIZE - sizeof(RPFrame);
+    return val == BLOCKSIZE || val == cap || val == cap - req_hdr(q);
+}
+
 /* the full oracle for one request on a fresh driver */
 static const char *
 check_request(const struct req *q)
@@ -138,10 +162,8 @@ check_request(const struct req *q)
         mc_fail("C06/valid-frame-received", "reception of a valid frame: rc=%d error.id=%d frame=%d", rrc, errid, hadframe);
         goto out;
     }
-    if (prc < 0) {
-        mc_fail("C06/process-succeeds", "regp_process returned %d", prc);
-        goto out;
-    }
+    /* the return value of regp_process is not fixed by the statement; only an
+     * acknowledged request must not be reported as a failure (below) */
     (void)before; /* an instance that keeps statistics is not forbidden by the statement: not compared */
     if (!drv_balanced(&D) || D.allocs < 1 || D.frees != D.allocs) {
         mc_fail("C06/frame-block-released", "allocs=%d frees=%d live=%d bad=%d", D.allocs, D.frees, D.nlive, D.bad_frees);
@@ -163,7 +185,7 @@ check_request(const struct req *q)
     }
     struct rframe r;
     const unsigned v = rr_verdict(scratch + fr.off[0], fr.len[0], &r);
-    if (v != RV_OK) {
+    if (!rr_reply_ok(v, &r)) {
         mc_fail("C06/reply-well-formed", "the reply is not a valid frame (reference verdict %u)", v);
         goto out;
     }
@@ -179,6 +201,26 @@ check_request(const struct req *q)
         else if (r.meta != 1 || r.plen != 0)
             mc_fail("C06/wordsize-response", "word-size mismatch answered with code %u, %zu payload octets", r.meta, r.plen);
         goto out;
+    }
+    if (!q->write) {
+        const size_t rawcap = BLOCKSIZE - sizeof(RPFrame);
+        const uint64_t octets = (uint64_t)q->bsize * (q->mem16 ? 2u : 1u);
+        const bool cannot_fit = octets + req_hdr(q) > rawcap;      /* not even behind the request's own header */
+        const bool band = !cannot_fit && octets + 16 > rawcap;      /* not together with a full response header */
+        if (cannot_fit || (band && D.ncalls == 0)) {
+            outcome = cannot_fit ? "read-too-large-refused" : "read-band-refused";
+            const uint32_t val = r.plen == 4 ? ((uint32_t)r.payload[0] << 24 | (uint32_t)r.payload[1] << 16 | (uint32_t)r.payload[2] << 8 | r.payload[3]) : 0;
+            if (D.ncalls != 0)
+                mc_fail("C06/too-large-read-no-access", "a read of %llu octets cannot fit the %zu-octet buffer but caused %d memory accesses",
+                        (unsigned long long)octets, rawcap, D.ncalls);
+            else if (r.meta != 5)
+                mc_fail("C06/too-large-read-response", "a read of %llu octets that was not executed was answered with code %u (expected transmit overflow)",
+                        (unsigned long long)octets, r.meta);
+            else if (r.plen != 4 || r.bsize != 4 || (r.options & RO_W16) || !bufsize_ok(q, val))
+                mc_fail("C06/error-payload", "transmit-overflow response: %zu payload octets, block size %u, options %x, value %u; buffer size is %zu", r.plen, r.bsize,
+                        r.options, val, rawcap);
+            goto out;
+        }
     }
     if (D.ncalls != 1) {
         mc_fail("C06/exactly-one-access", "%d memory accesses for one request", D.ncalls);
@@ -201,6 +243,10 @@ check_request(const struct req *q)
     }
     if (code == 0) {
         outcome = q->write ? "write-acked" : "read-acked";
+        if (prc < 0) {
+            mc_fail("C06/process-succeeds", "regp_process returned %d for an acknowledged request", prc);
+            goto out;
+        }
         if (q->write) {
             if (r.plen != 0 || r.bsize != 0)
                 mc_fail("C06/write-ack-empty", "write acknowledgement carries %zu octets, block size %u", r.plen, r.bsize);
@@ -223,7 +269,7 @@ check_request(const struct req *q)
                     r.bsize, r.options);
         else if (carries_address(code) && val != q->vaddr)
             mc_fail("C06/error-payload", "%s response carries %08x, backend reported %08x", RESPNAME[code], val, q->vaddr);
-        else if (carries_bufsize(code) && val != BLOCKSIZE - sizeof(RPFrame) && val != BLOCKSIZE)
+        else if (carries_bufsize(code) && !bufsize_ok(q, val))
             mc_fail("C06/error-payload", "%s response carries %u, buffer size is %zu", RESPNAME[code], val, BLOCKSIZE - sizeof(RPFrame));
     } else if (r.plen != 0 || r.bsize != 0) {
         mc_fail("C06/error-payload", "%s response carries %zu octets, block size %u (expected none)", RESPNAME[code], r.plen, r.bsize);
@@ -303,10 +349,20 @@ main(int argc, char **argv)
             for (int mem16 = 0; mem16 < 2; ++mem16)
                 for (int kind = 0; kind < 3; ++kind)
                     for (unsigned meta = 0; meta < 12; ++meta)
-                        for (uint32_t bs = 0; bs <= 2; ++bs) {
+                        for (uint32_t bs = 0; bs <= 4; ++bs) {
                             const int type = kind == 0 ? RT_READ_RESP : kind == 1 ? RT_WRITE_RESP : RT_META;
                             if (type == RT_META && (meta < 1 || meta > 2 || bs != 0 || sem16))
                                 continue;
+                            if (type != RT_META) {
+                                /* only responses doc/regp.txt 3.1 admits: read acknowledgements carry
+                                 * data, write acknowledgements and codes 1,2,3,6,11 nothing, codes
+                                 * 4,5,7..10 four octets in octet semantics (a receiver may hold
+                                 * responses to that; the statement is silent) */
+                                const bool four = meta == 4 || meta == 5 || (meta >= 7 && meta <= 10);
+                                const bool data = meta == 0 && type == RT_READ_RESP;
+                                if (four ? (bs != 4 || sem16) : data ? bs > 2 : bs != 0)
+                                    continue;
+                            }
                             struct req q = { tcp, false, sem16, mem16, 0x64, bs, 0, 7, RP_RESP_ACK, 0, type, meta };
                             desc_req(&q, d, sizeof d);
                             if (!mc_case("C %s", d))
@@ -325,7 +381,7 @@ main(int argc, char **argv)
                         na++;
                     }
         alpha[na++] = (struct req){ false, false, true, true, 0x10, 1, 0, 9, RP_RESP_ACK, 0, RT_READ_RESP, 0 };
-        alpha[na++] = (struct req){ false, false, false, true, 0x10, 0, 0, 9, RP_RESP_ACK, 0, RT_WRITE_RESP, 7 };
+        alpha[na++] = (struct req){ false, false, false, true, 0x10, 4, 0, 9, RP_RESP_ACK, 0, RT_WRITE_RESP, 7 };
         alpha[na++] = (struct req){ false, false, false, true, 0, 0, 0, 0, RP_RESP_ACK, 0, RT_META, 1 };
         for (int tcp = 0; tcp < 2; ++tcp)
             for (int i = 0; i < na; ++i)
@@ -359,7 +415,9 @@ main(int argc, char **argv)
                     mc_log("fresh: calls=%d rc=%d/%d err=%d reply=%zu; session: calls=%d rc=%d/%d err=%d reply=%zu", f_calls, f_rrc, f_prc, f_err, F.outlen,
                            D.ncalls, rrc, prc, errid, D.outlen);
                     (void)before;
-                    if (D.ncalls != f_calls || rrc != f_rrc || prc != f_prc || errid != f_err || D.outlen != F.outlen
+                    (void)f_rrc;
+                    (void)f_prc; /* return values are not part of the statement */
+                    if (D.ncalls != f_calls || errid != f_err || D.outlen != F.outlen
                              || memcmp(D.out, F.out, D.outlen) != 0
                              || (f_calls == 1 && !same_call(&D.call[0], &F.call[0])))
                         mc_fail("C06/requests-independent", "the second exchange of the session differs from the same exchange on a fresh instance");
@@ -370,7 +428,26 @@ main(int argc, char **argv)
                     mc_end(true, mc.cur_failed ? "failed" : "session-pair");
                 }
     }
-    mc_finish(true, th ? "A: 2 transports x read/write x 8/16-bit semantics x 8/16-bit memory x 6 addresses x every block size 0..capacity(160-octet block) x 4 contents x 4 sequence numbers; B: 12 verdicts x 3 reported addresses x kinds x sizes 0..3; C: every response code / meta code as input; D: all ordered pairs of 19 frames per transport"
-                       : "A: as thorough with the sequence number rotating with the address for blocks > 2; B: 12 verdicts x 3 reported addresses x kinds x sizes 0..3; C: every response code / meta code as input; D: all ordered pairs of 19 frames per transport");
+    /* family E: reads that cannot fit */
+    for (int tcp = 0; tcp < 2; ++tcp)
+        for (int m16 = 0; m16 < 2; ++m16) {
+            const size_t rawcap = BLOCKSIZE - sizeof(RPFrame);
+            const size_t ws = m16 ? 2 : 1;
+            const size_t hdr = tcp ? 12 : 14;
+            const uint32_t first = (uint32_t)((rawcap - hdr) / ws + 1); /* smallest size that does not fit behind the request header */
+            const uint32_t BS[] = { first, first + 1, first + 2, (uint32_t)(rawcap / ws), (uint32_t)(rawcap / ws + 1), BLOCKSIZE, 1000, 0xffff, 0x10000,
+                                    0x7fffffffu, 0x80000000u, 0x80000001u, 0x80000002u, 0x80000008u, 0x80000010u, 0x80000000u + (uint32_t)(rawcap / 2),
+                                    0xfffffffeu, 0xffffffffu };
+            for (unsigned bi = 0; bi < sizeof BS / sizeof *BS; ++bi)
+                for (unsigned ai = 0; ai < 6; ai += 5) {
+                    struct req q = { tcp, false, m16, m16, ADDRS[ai], BS[bi], 0, 0x0e0e, RP_RESP_ACK, ADDRS[ai], -1, 0 };
+                    desc_req(&q, d, sizeof d);
+                    if (!mc_case("E %s", d))
+                        continue;
+                    mc_end(true, check_request(&q));
+                }
+        }
+    mc_finish(true, th ? "A: 2 transports x read/write x 8/16-bit semantics x 8/16-bit memory x 6 addresses x every block size 0..capacity(160-octet block) x 4 contents x 4 sequence numbers; B: 12 verdicts x 3 reported addresses x kinds x sizes 0..3; C: every response code / meta code as input (document-conformant payloads); D: all ordered pairs of 19 frames per transport; E: reads of 18 sizes that cannot fit (just above the buffer .. 2^32-1, incl. sizes whose octet count wraps in 32 bits) x transports x memory widths"
+                       : "A: as thorough with the sequence number rotating with the address for blocks > 2; B: 12 verdicts x 3 reported addresses x kinds x sizes 0..3; C: every response code / meta code as input (document-conformant payloads); D: all ordered pairs of 19 frames per transport; E: reads of 18 sizes that cannot fit (just above the buffer .. 2^32-1, incl. sizes whose octet count wraps in 32 bits) x transports x memory widths");
     return 0;
 }
